@@ -202,5 +202,8 @@ fn finish(m: &Merged, tier: Tier) -> Finish {
         "the operator table is the one recorded in DESIGN.md section 2/E2 (the repository documents none); cells the statements leave open (i128::MIN % -1, Decimal division overflow class) accept any listed outcome".into(),
         "E2 trusts Rust i128/f64 arithmetic, rust_decimal, chrono and std string functions — the libraries reval itself delegates to; it checks dispatch, operand order, error mapping, range handling and composition".into(),
     ];
+    if tier == Tier::Thorough && crate::core::profile_name() == "verif" {
+        crate::fuzzleg::attach(&mut f, "C02", 150);
+    }
     f
 }
